@@ -238,6 +238,59 @@ def key_case(g, s):
     return 'K %s %s' % (g.sort_text(s), ' '.join(g.text(k) for k in ks))
 
 
+def growth_strings(n):
+    """all set partitions of n slots as restricted growth strings = all aliasing patterns"""
+    out = [[]]
+    for _ in range(n):
+        out = [r + [c] for r in out for c in range((max(r) + 1 if r else 0) + 1)]
+    return out
+
+
+ALIAS_PATTERNS = [r for n in range(0, 7) for r in growth_strings(n)]      # 1+1+2+5+15+52+203 = 279
+
+
+def alias_case(rng, pattern, sort='I'):
+    """a Tuple whose slots repeat object pointers as `pattern` says (a,a,b / a,b,a / a,a,a / ...), against Array / List /
+    Tuple of separately allocated equal values and against a neighbour (one element changed, shorter, longer, or the same
+    values under another aliasing pattern); operand order shuffled, so the aliased Tuple is first and second argument"""
+    pool = {'I': ['i1', 'i2', 'i3', 'i1', 'i4294967297'], 'S': ['s61', 's6162', 's', 's61', 'sff'],
+            'F': ['f0000000000000000', 'f8000000000000000', 'f3ff0000000000000', 'f7ff0000000000000']}[sort]
+    ncls = (max(pattern) + 1) if pattern else 0
+    cv = [rng.choice(pool) for _ in range(ncls)]
+    vals = [cv[c] for c in pattern]
+    first = {}
+    slots = []
+    for i, c in enumerate(pattern):
+        if c in first: slots.append('@%d' % first[c])
+        else:
+            first[c] = i; slots.append(cv[c])
+    P = 'P(' + ','.join(slots) + ')'
+    eqv = lambda vs: '%s(%s)' % (rng.choice('ALT'), ','.join(vs))
+    r = rng.random()
+    nb = list(vals)
+    if r < .3 and nb: nb[rng.randrange(len(nb))] = rng.choice(pool)
+    elif r < .5 and nb: nb.pop()
+    elif r < .7: nb.append(rng.choice(pool))
+    third = eqv(nb)
+    if rng.random() < .25 and len(vals) >= 2:
+        # the same values under another aliasing pattern (only equal values may share a pointer)
+        f2, sl2 = {}, []
+        for i, v in enumerate(vals):
+            if v in f2 and rng.random() < .6: sl2.append('@%d' % f2[v])
+            else:
+                f2.setdefault(v, i); sl2.append(v)
+        third = 'P(' + ','.join(sl2) + ')'
+    ops = [P, eqv(vals), third]
+    rng.shuffle(ops)
+    return 'C Q(%s) %s' % (sort, ' '.join(ops))
+
+
+def alias_cases(rng, n_extra):
+    cs = [alias_case(rng, p, 'I') for p in ALIAS_PATTERNS]
+    cs += [alias_case(rng, rng.choice(ALIAS_PATTERNS), rng.choice('ISF')) for _ in range(n_extra)]
+    return cs
+
+
 def grid_cases(rng, tier):
     """all ordered pairs of the boundary grids (third value drawn from the grid)"""
     out = []
@@ -291,11 +344,19 @@ def parse_field(f):
         return None, None
 
 
+def aliased_flags(case):
+    """per operand of a C case: is it a Tuple given with a repeated pointer (P(..@j..))"""
+    return [t.startswith('P(') and '@' in t for t in case.split(' ')[2:]]
+
+
+KNOWN_F3 = 'KNOWN tuple-repeated-pointer'
+
+
 def oracle(case, impl, spec):
     sp = spec.split(' ')
     if all(x == '?' for x in sp) or spec in ('BADVALUE', 'BADCASE'):
         return None
-    if 'CRASH' in impl or 'TIMEOUT' in impl or 'EXIT(' in impl:
+    if 'CRASH' in impl or ' | TIMEOUT' in impl or 'EXIT(' in impl:
         return 'comparison did not return: %s' % impl[-40:]
     if impl == 'BADVALUE':
         return None        # value construction is not this property's business (correspondence reports it)
@@ -311,9 +372,21 @@ def oracle(case, impl, spec):
         return None
     names = ['a', 'b', 'c']
     m = [[None] * 3 for _ in range(3)]
+    al = aliased_flags(case)
+    known = stall = None
     for n, (a, b) in enumerate(zip(im, sp)):
         i, j = divmod(n, 3)
         if b == '?':
+            continue
+        if a == 'TIMEOUT':
+            stall = stall or 'cmp(%s,%s) does not return (comparison loop still running after 150 ms of CPU time), the reference order demands %s' % (
+                names[i], names[j], b.split(':')[0])
+            continue
+        if al[j]:
+            # right operand is a Tuple with a repeated pointer: walked with Tuple_Iter_Next (open finding F3)
+            if a.split(':')[0] != b.split(':')[0] and known is None:
+                known = '%s: cmp(%s,%s) = %s, the reference order demands %s (right operand %s holds one pointer twice)' % (
+                    KNOWN_F3, names[i], names[j], a.split(':')[0], b.split(':')[0], names[j])
             continue
         c, bits = parse_field(a)
         if c is None:
@@ -337,12 +410,22 @@ def oracle(case, impl, spec):
                 if m[i][j] <= 0 and m[j][k] <= 0 and m[i][k] != (0 if m[i][j] == 0 and m[j][k] == 0 else -1):
                     return 'not transitive: sign cmp(%s,%s) = %d, cmp(%s,%s) = %d but cmp(%s,%s) = %d' % (
                         names[i], names[j], m[i][j], names[j], names[k], m[j][k], names[i], names[k], m[i][k])
-    return None
+    return stall or known
+
+
+def classify(case, impl, why):
+    return 'tuple-repeated-pointer' if why and why.startswith(KNOWN_F3) else None
 
 
 def corr(case, impl, model):
     if impl == model:
         return None
+    if impl.endswith(' | TIMEOUT') or impl == ' | TIMEOUT':
+        # the child stalled in one comparison: the model must say the same loop does not end there
+        a, b = [x for x in impl[:-len(' | TIMEOUT')].split(' ') if x], model.split(' ')
+        if a == b[:len(a)] and len(b) > len(a) and b[len(a)] == 'TIMEOUT':
+            return None
+        return 'implementation stalled after %d comparisons, model %s' % (len(a), ' '.join(b[:len(a) + 1]))
     a, b = impl.split(' '), model.split(' ')
     for n, (x, y) in enumerate(zip(a, b)):
         if x != y:
@@ -439,18 +522,38 @@ def simpler(v):
                 yield Gen.force_kinds(('M', v[1][:i] + [(c, b)] + v[1][i + 1:]))
 
 
+def ptuple_slots(txt):
+    inner, out, depth, cur = txt[2:-1], [], 0, ''
+    for ch in inner:
+        depth += (ch == '(') - (ch == ')')
+        if ch == ',' and depth == 0:
+            out.append(cur); cur = ''
+        else:
+            cur += ch
+    return out + [cur] if inner else []
+
+
+def simpler_ptuple(txt):
+    """drop the last slot of P(...) (keeps every @j valid)"""
+    sl = ptuple_slots(txt)
+    if sl:
+        yield ('raw', 'P(' + ','.join(sl[:-1]) + ')')
+
+
 def shrink_c(case, fails, budget=400):
     t = case.split(' ')
     try:
-        vals = [parse_text(x) for x in t[2:]]
+        vals = [('raw', x) if x.startswith('P(') else parse_text(x) for x in t[2:]]
     except Exception:
         return case
     g = Gen(None)
+    _text, _simpler = g.text, simpler
+    g.text = lambda v: v[1] if v[0] == 'raw' else _text(v)
     changed = True
     while changed and budget > 0:
         changed = False
         for p in range(len(vals)):
-            for c in simpler(vals[p]):
+            for c in (simpler_ptuple(vals[p][1]) if vals[p][0] == 'raw' else simpler(vals[p])):
                 budget -= 1
                 if budget <= 0: break
                 cand = vals[:p] + [c] + vals[p + 1:]
@@ -463,9 +566,26 @@ def shrink_c(case, fails, budget=400):
 
 
 class Diff(vlib.Differential):
+    def _fails_oracle(self, case):
+        i = self.run_impl([case]); sp = self.run_spec([case])
+        why = self.oracle(case, i[0], sp[0]) if i and sp else None
+        return bool(why) and not why.startswith(KNOWN_F3)       # never shrink a violation into the known finding
+
     def shrink(self, case, fails):
         if case.startswith('C '):
-            return shrink_c(case, fails)
+            # keep the KIND of failure while shrinking: a wrong comparison result stays a wrong result
+            # (it may not turn into a stalled comparison or into the known finding)
+            i = self.run_impl([case]); sp = self.run_spec([case])
+            why0 = self.oracle(case, i[0], sp[0]) or ''
+            stall0 = 'does not return' in why0 or 'did not return' in why0
+
+            def same_kind(c):
+                i = self.run_impl([c]); sp = self.run_spec([c])
+                why = self.oracle(c, i[0], sp[0]) if i and sp else None
+                if not why or why.startswith(KNOWN_F3):
+                    return False
+                return ('does not return' in why or 'did not return' in why) == stall0
+            return shrink_c(case, same_kind if fails == self._fails_oracle else fails)
         return vlib.Differential.shrink(self, case, fails)
 
 
@@ -501,6 +621,12 @@ CORPUS = [
     'C Q(S) A(s62,s61) A(s61,s62) A(s62)',
     'C Q(F) T(f3ff0000000000000) T(f3fe0000000000000) T(f3ff0000000000001)',
     'C Q(Y) T(t496e74) T(t496e) T(t496e74,t466c6f6174)',
+    # Tuples holding one pointer in several slots, as first argument (index walk: correct; seeded C09-r4-2) and as
+    # second argument / against themselves (walked with Tuple_Iter_Next: open finding F3, reported as KNOWN-FINDING)
+    'C Q(I) P(i1,@0,i2) A(i1,i1,i2) L(i1,i1)',
+    'C Q(I) P(i1,i2,@0) A(i1,i2,i1) T(i1,i2,i1,i5)',
+    'C Q(I) A(i1,i1,i3) P(i1,@0,@0) L(i1,i1,i1)',
+    'C Q(S) L(s61,s62,s62) P(s61,s62,@1) A(s61,s62)',
 ]
 
 
@@ -513,6 +639,10 @@ def run(ctx):
         '%d-pattern Float grid (signed zeros, denormals, min/max normal, neighbours of 1.0 and 2^53, infinities; bit patterns), random triples where the '
         'second/third value is a mutation of the first (equal under another representation: -0.0/0.0, Array/List/Tuple with the same elements, '
         'Tree built in another order; proper prefix; one byte/element changed; +-2^31, 2^32, 2^63), strings over bytes incl. 0x80-0xff; '
+        '"alias" cases: a Tuple whose slots repeat object pointers (ALL 279 aliasing patterns = set partitions of 0..6 slots, plus random ones over '
+        'Int/String/Float values) against separately allocated Array/List/Tuple of equal values and a neighbour, operand order shuffled; the aliased '
+        'Tuple as FIRST argument must order by its values (index walk), as SECOND argument it is walked with Tuple_Iter_Next = open finding '
+        'tuple-repeated-pointer (reported as KNOWN-FINDING, any other disagreement is a violation); a comparison still looping after 150 ms CPU time is a stalled case = failure; '
         '"K" cases set 2-12 boundary keys into a Tree and look every one up again; "?" cases mix sorts (raise behaviour, correspondence only). '
         'non-trivial = three pairwise different value texts and at least one off-diagonal comparison (or lookup) returned a result; '
         'distinct_nontrivial = number of distinct non-trivial INPUTS (case texts); a transcript here is only nine signs, so the number of '
@@ -528,10 +658,18 @@ def run(ctx):
     ctx.coq()
     drv = ctx.build_driver('Cmp')
     h = ctx.build_harness('val_cmp.c')
-    run_impl = lambda cs: ctx.run_lines(h, cs)[1]
+    henv = dict(os.environ, H_TIMEOUT='5')       # whole-case watchdog; each comparison has its own 150 ms CPU-time guard (field TIMEOUT)
+    run_impl = lambda cs: ctx.run_lines(h, cs, env=henv)[1]
+    # this property's own open findings (findings.d/C09.json; known_findings.json is assembled from it)
+    try:
+        mine = json.load(open(os.path.join(vlib.VERIF, 'findings.d', 'C09.json')))
+        have = {(f.get('property'), f.get('signature')) for f in ctx.findings}
+        ctx.findings += [f for f in mine if f.get('status') == 'open' and (f['property'], f.get('signature')) not in have]
+    except Exception as e:
+        ctx.notes.append('findings.d/C09.json unreadable: %r' % e)
     run_model = lambda cs: ctx.run_lines(drv, cs, args=['model'])[1]
     run_spec = lambda cs: ctx.run_lines(drv, cs, args=['spec'])[1]
-    d = Diff(ctx, 'cmp', run_impl, run_model, run_spec, oracle, corr, nontrivial, split, join)
+    d = Diff(ctx, 'cmp', run_impl, run_model, run_spec, oracle, corr, nontrivial, split, join, classify)
     rp = os.environ.get('VERIF_REPLAY')
     if rp:
         r = json.load(open(rp))
@@ -559,6 +697,18 @@ def run(ctx):
             hist[key] = hist.get(key, 0) + 1
         return cs
 
+    def real_failures():
+        return [x for x in d.oracle_fail if not x[4].startswith(KNOWN_F3)]
+
+    def feed_alias(n_extra):
+        cs = alias_cases(ctx.rng, n_extra)
+        hist['alias'] = hist.get('alias', 0) + len(cs)
+        for i in range(0, len(cs), 60):
+            d.feed(cs[i:i + 60])
+            if real_failures():          # stop at the first concrete failure
+                break
+
+    feed_alias(150 if quick else 6000)
     grid = grid_cases(ctx.rng, ctx.tier)
     hist['grid'] = len(grid)
     for i in range(0, len(grid), 2000):
@@ -577,7 +727,12 @@ def run(ctx):
     ctx.cov['case_histogram'] = hist
 
     def extra(dd):
-        dd.feed(batch(30000))
+        feed_alias(3000)
+        if not real_failures():
+            dd.feed(batch(30000))
+    if getattr(ctx, 'proof_broken', None) and not real_failures():
+        # broken proof obligation / source shape: directed search (aliasing patterns first, then 3x volume)
+        extra(d)
     d.report(extra)
     ctx.cov['distinct_transcripts'] = len(ctx._distinct)
     ctx._distinct = set(DISTINCT_INPUTS)          # what finish() prints: distinct non-trivial inputs
